@@ -64,9 +64,22 @@ def eq_jobs(tier):
             {"id": "twin.filter-equality", "func": "VerifH_C08_FilterEqualReach", "conf": {}, "_obligation": "vacuity", "_expect": "twin", "_covers": ["end"]}]
 
 
+from props import C09 as _c09
+
+
+def request_jobs(tier):
+    js = []
+    for agg, an in ((0, "max"), (1, "min")):
+        for first, fn in (((0, "floats-first"),) if tier == "quick" else ((0, "floats-first"), (1, "ints-first"))):
+            js.append({"id": f"O7.request.{an}.two-targets.{fn}", "func": "VerifH_C08_MinMax", "conf": {"agg": agg, "first": first},
+                       "_obligation": "O7", "_covers": ["ran"], "unwind": 60})
+    return js
+
+
 PROPERTY = {
     "id": "C08",
     "suites": [{"name": "planner", "pkg": "internal/planner", "files": ["zz_verif_c08.go", "zz_verif_c08agg.go"], "jobs": jobs, "unwind": 16},
+               dict(_c09.PROPERTY["suites"][0], name="request", files=["zz_verif_query.go", "zz_verif_c08q.go"], jobs=request_jobs),
                {"name": "mapper", "pkg": "internal/planner/mapper", "files": ["zz_verif_c08eq.go"], "jobs": eq_jobs, "unwind": 40}],
     "bounds": {"quick": {"sort keys": "<=2", "rows sorted": 3, "limit rows": "<=3", "strings": "<=2 bytes", "numeric": "full width"},
                "thorough": {"sort keys": "<=2 (all kind pairs)", "rows sorted": "3-4", "limit rows": "<=5", "strings": "<=2 bytes", "numeric": "full width"}},
